@@ -157,7 +157,10 @@ theorem rec_dict_elem (dict : Tag → Option VR) : ∀ (el : Elem), WfImp dict e
     · simp only [dictElem, heq, if_false, recElem]
       rcases hcase with h1 | ⟨h1, _⟩
       · exact absurd h1 heq
-      · exact primitiveElement_un e hts hex tag vr _ len v hv hsz h1
+      · rw [encodePrimitiveElement_valid e tag vr len v false hv]
+        unfold Enc.encodePrimitiveElement
+        rw [owWords_ne_ow (by show implicitVr dict tag ≠ .OW; rw [h1]; decide)]
+        exact primitiveElement_un e hts hex tag vr _ len v hv hsz h1
   | .seq tag len items, h, e, hts, hex => by
     simp only [dictElem, recElem]
     cases h1 : e.elementHeader ⟨tag, .SQ, undefinedLen⟩ with
